@@ -4,7 +4,7 @@ import json, os
 V = os.path.dirname(os.path.dirname(os.path.abspath(__file__)))
 CHECKS = {
  # id: (technique, level text, level note, design ref)
- "C01": ("Hypothesis-generated (zone, zone, instant-near-transition, tzinfo kind) cases + enumeration of every tz transition; differential against native zoneinfo rendering and integer-instant oracle; RuleBasedStateMachine history of conversions",
+ "C01": ("Hypothesis-generated (zone, zone, instant-near-transition, tzinfo kind) cases incl. alias values (other pass of a repeated hour) + enumeration of every tz transition; differential against native zoneinfo rendering and integer-instant oracle; RuleBasedStateMachine history (conversions, arithmetic, copies, global switches) with the oracle checked after every step",
          "Generated-input search: every conversion entry point is compared, per case, with the native zoneinfo rendering of the same integer instant; thorough tier visits every enumerated transition of every zone. Not a proof: absence is only established on the enumerated transition x probe set.",
          "Trusts CPython zoneinfo + installed tzdata as 'the tz database'; pytz/dateutil sources only where their own offset agrees with zoneinfo.", "4/C01"),
  "C02": ("Hypothesis over (zone, wall tuple on/around gap+overlap edges, fold, raise flag, entry point) + exhaustive walk over enumerated gaps/overlaps; pre-image oracle computed from native zoneinfo",
@@ -15,7 +15,7 @@ CHECKS = {
  "C04": ("Hypothesis over (zone|naive|Date, month-end/leap/transition-biased start, mixed-sign calendar amounts) + exhaustive month-day x delta-month table; reference shift model cross-checked with dateutil.relativedelta; metamorphic relations add(-a)==subtract(a), dt-d==dt+(-d)",
          "Generated-input search against a 10-line reference model plus metamorphic relations.", "Reference model = months arithmetic, clamp, native timedelta; landing wall time resolved by the C02 oracle.", "4/C04"),
  "C05": ("Hypothesis over ordered DateTime pairs (same object/name/different zones, fixed offsets, naive, Date) around transitions and folds; integer-instant oracle for length, truncations, negation, abs",
-         "Generated-input search with exact integer oracle (exact below 2^33 s, 64 us tolerance beyond, as stated).", "Trusts zoneinfo/tzdata.", "4/C05"),
+         "Generated-input search with exact integer oracle (exact below 2^33 s, 64 us tolerance beyond, as stated).", "Trusts zoneinfo/tzdata. Known finding K-C05-1 (same-tzinfo pairs whose wall order differs from their instant order: magnitude forms negated) is excluded by an input predicate plus the pinned wrong value.", "4/C05 and 0.2"),
  "C06": ("Exhaustive enumeration of date pairs in leap-containing windows + Hypothesis datetime pairs; validity oracle (ranges + add-back) and Python<->Rust differential",
          "Exhaustive over the enumerated date-pair windows, sampled elsewhere; any decomposition satisfying ranges + add-back is accepted.", "Add-back uses pendulum's own add(), itself checked by C04.", "4/C06"),
  "C07": ("Constructive generation: dates/times rendered by an independent formatter in every ISO form (exhaustive over all dates 1583..9999 in thorough), parsed by both backends and compared with the source value; negative space of impossible dates",
@@ -29,17 +29,17 @@ CHECKS = {
  "C11": ("Hypothesis over values/pairs x zones x folds; native-twin substitution oracle for every accessor and operator",
          "Generated-input differential against native twins built with the same tzinfo object.", "Contradictory readings (same-zone pairs straddling a fold) are checked against the native behaviour only.", "4/C11"),
  "C12": ("Hypothesis over (zone, instant biased to skipped/repeated unit boundaries, provenance, unit, week config) + enumeration of transitions touching boundaries; oracle from local fields + pre-image oracle",
-         "Generated-input search; fully asserted where the unit boundary exists once, candidate-set oracle where it is skipped/repeated.", "Trusts zoneinfo/tzdata; known finding K-C12-1 excluded by predicate.", "4/C12"),
+         "Generated-input search; fully asserted where the unit boundary exists once, candidate-set oracle where it is skipped/repeated.", "Trusts zoneinfo/tzdata; known finding K-C12-1 (skipped/repeated unit boundary resolved by the instance's fold) is excluded by an input predicate plus the pinned value create(W, fold=x.fold); for 'week' the predicate covers the midnights the walk touches.", "4/C12 and 0.2"),
  "C13": ("Hypothesis over ISO duration component tuples/fractions and interval forms; exact rational oracle (fractions.Fraction); backend differential",
          "Generated-input search with exact rational oracle.", "Known fraction/overflow findings are excluded by input predicates.", "4/C13"),
  "C14": ("Hypothesis over values of every type x pickle protocols 0-5 x copy x deepcopy + enumeration of every overlap of every zone (both folds); observer-tuple equality oracle",
          "Generated-input round-trip.", "Observer tuple = public accessors listed in the statement.", "4/C14"),
- "C15": ("Exhaustive enumeration of all years and all dates (thorough) against calendar/datetime stdlib + Python<->Rust differential; Hypothesis for local_time",
+ "C15": ("Exhaustive enumeration of all years and all dates (thorough) against calendar/datetime stdlib + Python<->Rust differential; Hypothesis for local_time and for getters of one instant rendered in several zones",
          "Exhaustive over years and (thorough) all 3,652,059 dates; sampled for timestamps.", "Trusts CPython's calendar/datetime.", "4/C15"),
  "C16": ("Enumeration of every month shape x weekday x n plus Hypothesis over zones with skipped midnights; brute-force datetime.date oracle",
-         "Exhaustive over month shapes for Date/UTC, sampled for zones.", "Target days that do not exist in the zone are outside the asserted domain.", "4/C16"),
- "C17": ("Grammar-plus-edits Hypothesis strategy over both backends and all options; exception bucketing by (type, innermost pendulum frame); atheris coverage-guided fuzzing of parse() with the same oracle in the target",
-         "Fuzzing / generated-input search for totality; never proves absence.", "Known exception buckets are listed by call site in known_findings.json.", "4/C17"),
+         "Exhaustive over month shapes for Date/UTC, sampled for zones.", "Zone cases whose walk touches a skipped/repeated midnight are governed by known finding K-C12-1 (counted, result only required to be a valid local time); target days that do not exist in the zone are outside the asserted domain.", "4/C16 and 0.2"),
+ "C17": ("exhaustive single-character-edit enumeration of valid forms + grammar-plus-edits Hypothesis strategy over both backends and all options; exception bucketing by (type, innermost pendulum frame); atheris coverage-guided fuzzing of parse() with the same oracle in the target",
+         "Exhaustive first ring (every single-character edit of 35 seed forms, ~107k strings) + Hypothesis grammar-plus-edits search (0-2 edits, foreign characters, long digit runs, all options) + coverage-guided fuzzing (atheris/libFuzzer, oracle inside the target); never proves absence beyond the enumerated ring.", "Strict clause checked through a necessary condition (ISO alphabet); every escape found on the pinned commit was repaired in /repo (fixed entries in known_findings.json); a libFuzzer campaign is only approximately reproducible - the saved input is the replay unit.", "4/C17 and 0.2"),
  "C18": ("Exhaustive product locales x units x counts x flags; phrase reconstructed independently from locale data; Hypothesis instant pairs for direction/magnitude",
          "Exhaustive over the locale x unit x count x flag product.", "Locale tables are the source of expected templates.", "4/C18"),
  "C19": ("Hypothesis over intervals (forward/inverted/absolute, zones, Date) x units x steps; oracle = independently computed start.add(unit=k*n) sequence",
